@@ -119,7 +119,8 @@ func proofEvent(src string, tx *boc.Cell, typed *tlb.Transaction) (ev.M, error) 
 		return nil, err
 	}
 	var a, b, b2 tlb.Transaction
-	if err := tlb.Unmarshal(c1, &a); err != nil {
+	oneCell = *c1 // the package-level Unmarshal meets record after record at one cell address
+	if err := tlb.Unmarshal(&oneCell, &a); err != nil {
 		return nil, fmt.Errorf("proved transaction: %w", err)
 	}
 	dec := tlb.NewDecoder()
@@ -202,7 +203,8 @@ func rebuiltEvent(src string, tx *boc.Cell, typed *tlb.Transaction, total int) (
 	}
 	c2, _ := build(n)
 	var a, b tlb.Transaction
-	if err := tlb.Unmarshal(c1, &a); err != nil {
+	oneCell = *c1
+	if err := tlb.Unmarshal(&oneCell, &a); err != nil {
 		return nil, fmt.Errorf("rebuilt transaction: %w", err)
 	}
 	if err := tlb.NewDecoder().Unmarshal(c2, &b); err != nil {
